@@ -373,6 +373,7 @@ pub fn c07_e2e_case(bytes: &[u8], stats: &mut Stats, counting: bool) -> Verdict 
         }
     }
     match out {
+        ExecOutcome::Budget => Verdict::HarnessBug("one-vertex world exhausted the work budget".into()),
         ExecOutcome::Rows(rows) => {
             let got = rows.len() == 1;
             if rows.len() > 1 {
@@ -442,13 +443,13 @@ pub fn c07(ctx: &CheckCtx) -> i32 {
     report.stats.bump("exhaustive_integer_boundary_grid", n);
     report.extra.insert("exhaustive_subspace".into(), json!({"exhaustive": true, "cases": n}));
     let _ = ALL_OPS;
-    let cases = ctx.cases(2_500_000, 50_000_000);
+    let cases = ctx.cases(8_000_000, 100_000_000);
     let res = search(ctx, "c07-direct", cases, 8, 120, c07_direct_case);
     report.absorb(res, &|b| {
         let (op, l, r) = gen_direct(&mut Choices::new(b));
         json!({"op": op.name(), "left": l.to_json(), "right": r.to_json()})
     });
-    let cases = ctx.cases(160_000, 1_000_000);
+    let cases = ctx.cases(500_000, 4_000_000);
     let res = search(ctx, "c07-e2e", cases, 8, 120, c07_e2e_case);
     report.absorb(res, &|b| {
         let (op, l, r) = gen_direct(&mut Choices::new(b));
